@@ -815,25 +815,7 @@ theorem module_description_function (T : STables) (env : Name → Option ClassDe
       describeH (srun T {} ((pre0 ++ .load sec es gs :: mid) ++ .create n c sec :: post)).world (.inst n) =
         (instViews T.base V.accessibles (describeCfg (srun T {} (pre0 ++ [.load sec es gs])) sec)).map
           (fun nv => (nv.1, some nv.2)) := by
-  -- what the section shows when the module is created is what it showed when it was loaded
-  have hsec : (srun T {} (pre0 ++ [.load sec es gs])).findSection sec ≠ none := by
-    rw [srun_append]
-    simp only [srun, List.foldl_cons, List.foldl_nil, sstep, loadSection, Session.findSection, List.find?_append]
-    cases (srun T {} pre0).sections.find? (fun c => c.name == sec) with
-    | some x => simp
-    | none => simp
-  have hcfg : readSection (srun T {} (pre0 ++ .load sec es gs :: mid)) sec =
-      describeCfg (srun T {} (pre0 ++ [.load sec es gs])) sec := by
-    have e : pre0 ++ .load sec es gs :: mid = (pre0 ++ [.load sec es gs]) ++ mid := by simp
-    rw [e, srun_append]
-    exact readSection_run T mid _ (cfgBounded_reachable T _) sec hsec
-  have hw : worldOps T {} ((pre0 ++ .load sec es gs :: mid) ++ .create n c sec :: post) =
-      worldOps T {} (pre0 ++ .load sec es gs :: mid) ++
-        Op.inst n c (readSection (srun T {} (pre0 ++ .load sec es gs :: mid)) sec) ::
-        worldOps T (srun T {} ((pre0 ++ .load sec es gs :: mid) ++ [.create n c sec])) post := by
-    rw [worldOps_append]
-    simp only [worldOps, SOp.worldOp, Option.toList_some, List.singleton_append, srun, List.foldl_cons,
-      List.foldl_nil, List.foldl_append]
+  obtain ⟨hcfg, hw⟩ := create_after_load T pre0 mid post sec n c es gs
   unfold SAdmissibleRun at hrun
   rw [hw] at hrun
   have hc' : (run T.base {} (worldOps T {} (pre0 ++ .load sec es gs :: mid))).findClass c = some cr := by
@@ -845,6 +827,29 @@ theorem module_description_function (T : STables) (env : Name → Option ClassDe
   have e2 := srun_world T ((pre0 ++ .load sec es gs :: mid) ++ .create n c sec :: post) {}
   rw [e2, hw]
   show describeH (run T.base {} _) (.inst n) = _
+  rw [hd, hcfg]
+
+/-- … and so is the module-level part: the module shows `instMSpec` of the value `HasProperties.__init_subclass__` computed
+for its class and of the items its section had when it was loaded — whatever happened to the section's `Param` objects'
+other users in between, and whatever is done afterwards (its own mutations included) -/
+theorem module_mprops_function (T : STables) (pre0 mid post : List SOp) (sec n c : Name) (es : List (Name × EntrySpec))
+    (gs : List (PVal × List Name))
+    (hrun : SAdmissibleRun T {} ((pre0 ++ .load sec es gs :: mid) ++ .create n c sec :: post))
+    (hwf : ∀ op ∈ worldOps T {} (pre0 ++ .load sec es gs :: mid), WellFormed op)
+    (cr : ClassRec) (hc : (srun T {} (pre0 ++ .load sec es gs :: mid)).world.findClass c = some cr) :
+    describeM (srun T {} ((pre0 ++ .load sec es gs :: mid) ++ .create n c sec :: post)).world (.inst n) =
+      instMSpec cr.pure.props (describeCfg (srun T {} (pre0 ++ [.load sec es gs])) sec) := by
+  obtain ⟨hcfg, hw⟩ := create_after_load T pre0 mid post sec n c es gs
+  unfold SAdmissibleRun at hrun
+  rw [hw] at hrun
+  have hc' : (run T.base {} (worldOps T {} (pre0 ++ .load sec es gs :: mid))).findClass c = some cr := by
+    have e := srun_world T (pre0 ++ .load sec es gs :: mid) {}
+    rw [e] at hc
+    exact hc
+  have hd := inst_mprops_function T.base _ _ n c _ hrun hwf cr hc'
+  have e2 := srun_world T ((pre0 ++ .load sec es gs :: mid) ++ .create n c sec :: post) {}
+  rw [e2, hw]
+  show describeM (run T.base {} _) (.inst n) = _
   rw [hd, hcfg]
 
 /-- **features_function**: the module property `features` is a function of the class chain only — of the MRO of the class
@@ -1068,6 +1073,21 @@ example :
     subst hop
     intro h
     simp [Op.target] at h
+
+/-- the additional hypothesis of `module_mprops_function` (class bodies are dicts) holds in the same example, and the module
+shows the module properties of its class (none declared here: the empty list, as `instMSpec` says) -/
+example : (∀ op ∈ worldOps exST {} (exMdPre0 ++ .load "m1" [("p", .new [("max", "3")])] [] :: exMdMid), WellFormed op) ∧
+    describeM (srun exST {} ((exMdPre0 ++ .load "m1" [("p", .new [("max", "3")])] [] :: exMdMid) ++
+      .create "m1" "B" "m1" :: exMdPost)).world (.inst "m1") = [] := by
+  constructor
+  · intro op hop
+    simp only [worldOps, exMdPre0, exMdMid, SOp.worldOp, Option.toList_some, Option.toList_none,
+      List.cons_append, List.nil_append, List.append_nil, List.mem_cons, List.not_mem_nil, or_false] at hop
+    rcases hop with h | h | h <;> subst h
+    · simp [WellFormed, KeysNodup, dA]
+    · simp [WellFormed, KeysNodup, dB]
+    · trivial
+  · decide +kernel
 
 /-- **later_instances_same_features** applied: `BF` has the feature `F` whatever was created before (a module of its base
 class `B` first, or not); its hypotheses hold in `exS0` -/
